@@ -72,16 +72,25 @@ Ltac symL :=
                | erewrite subscript_map_at by (first [reflexivity | eassumption | symmetry; eassumption])
                | rewrite exec_S | rewrite run_stmts_cons; cbn [exec_stmt] | rewrite run_stmts_one; cbn [exec_stmt]
                | progress cbn [bind fst snd orb negb seq_out] | progress leafL ].
-Ltac startL :=
-  unfold stepL, envL, for_step; cbn [app];
-  (match goal with |- context [assign ?a ?b ?c ?d ?e ?f] => RUNP (assign a b c d e f) end);
-  cbn [bind fst snd]; unfold bodyL, blockL; cbv beta iota zeta delta [src_LOSParam_kwargs2args nth].
+(* the loop body on the environment in which the loop variables exist (after the target assignment it always has this shape) *)
+Lemma bodyL_run (pre rest : list pop) p acc w :
+  exec G0 77 bodyL (envL (pre ++ p :: rest) acc (Some (Z.of_nat (length pre), dstr p))) w
+  = Ok (ONormal (envL (pre ++ p :: rest) (acc ++ free_vals p) (Some (Z.of_nat (length pre), dstr p))), w).
+Proof.
+  destruct p as [k m s x]. destruct k; unfold envL; cbn [app];
+  unfold bodyL, blockL; cbv beta iota zeta delta [src_LOSParam_kwargs2args nth]; symL;
+  (match goal with |- ?L = _ => RUNP L end); unfold free_vals; cbn [pk vm vs vx];
+  rewrite <- ?app_assoc; cbn [app]; rewrite ?app_nil_r; reflexivity.
+Qed.
 Lemma stepL_one (pre rest : list pop) p acc prev idx w :
   stepL (VTuple [VInt (Z.of_nat (length pre)); dstr p]) idx (envL (pre ++ p :: rest) acc prev) w
   = Ok (ONormal (envL (pre ++ p :: rest) (acc ++ free_vals p) (Some (Z.of_nat (length pre), dstr p))), w).
 Proof.
-  destruct p as [k m s x]. destruct k; destruct prev as [[pk0 pd0]|]; startL; symL;
-  (match goal with |- ?L = _ => RUNP L end); unfold free_vals; cbn [pk vm vs vx];
-  rewrite <- ?app_assoc; cbn [app]; rewrite ?app_nil_r; reflexivity.
+  destruct prev as [[pk0 pd0]|]; unfold stepL, for_step; unfold envL at 1; cbn [app];
+  (match goal with |- context [assign ?a ?b ?c ?d ?e ?f] => RUNP (assign a b c d e f) end);
+  cbn [bind fst snd];
+  (match goal with |- context [exec G0 77 bodyL ?r ?w0] =>
+     change (exec G0 77 bodyL r w0) with (exec G0 77 bodyL (envL (pre ++ p :: rest) acc (Some (Z.of_nat (length pre), dstr p))) w0) end);
+  rewrite bodyL_run; cbn [bind fst snd]; unfold envL;
+  (match goal with |- ?L = _ => RUNP L end); reflexivity.
 Qed.
-
